@@ -302,7 +302,7 @@ PROPS["C17"] = dict(
         "IndexError there — and that the two structural causes of mid-run failures visible in the code "
         "(unaligned operands at a shared-coordinate sink, key functions naming a non-operand) are absent. "
         "scan()'s geometry assert is reproduced known finding F7."
-            " Also: a division by the length of an operand-derived sequence is protected against the empty case (DIVZERO-1), and chunk metadata is not read from an alias taken before unify_chunks."
+            " Also: a division by the length of an operand-derived sequence is protected against the empty case (DIVZERO-1), and chunk metadata is not read from an alias taken before unify_chunks. HOIST-1: every raise/assert in a registered block, key, selection or combine function is guarded by something the task's own block decides — a refusal that reads only build-time values (closure variables of the builder, option parameters) is reported: the builder could have refused before anything ran."
     ),
     note="Does NOT decide completeness of each function's argument validation against NumPy's domain (no code-shape oracle for what should have been validated).",
     design="DESIGN.md §4 C17",
